@@ -214,6 +214,8 @@ def chunkings(t, body, form=None, max_chunks=None):
             cuts = set(range(a, min(n, a + 300)))
     elif mode == "small":
         k = 1 + t.draw(7)
+        if n > 4096:     # keep the number of chunks of large bodies bounded
+            k = t.choice([1021, 4096, 16384, 65536, 65537])
         cuts = set(range(0, n + 1, k))
     elif mode == "halves":
         cuts.add(n // 2)
@@ -227,3 +229,20 @@ def chunkings(t, body, form=None, max_chunks=None):
         for _ in range(1 + t.draw(3)):
             pieces.insert(t.draw(len(pieces) + 1), b"")
     return mode, pieces
+
+
+def content_spans(form):
+    """[(kind, start, end)] byte offsets of every part's content inside encode_form(form)."""
+    b = form["boundary"].encode("latin-1")
+    pos = 0
+    if form["preamble"]:
+        pos += len(form["preamble"]) + 2
+    spans = []
+    for p in form["parts"]:
+        pos += 2 + len(b) + 2
+        for k, v in part_headers(p):
+            pos += len(("%s: %s\r\n" % (k, v)).encode("utf-8"))
+        pos += 2
+        spans.append((p["kind"], pos, pos + len(p["content"])))
+        pos += len(p["content"]) + 2
+    return spans
